@@ -12,8 +12,10 @@ for a split (I, D) of range(n) and prescribed values x,
                          system is returned satisfies |y_pen - y| <= C/P (P = smallest penalty found on the
                          constrained diagonal, C from the dense model); matrix rhs: the bounded eigenvalues of
                          the penalised pencil == eigenvalues of the condensed pencil (within a P-window the
-                         dense model can decide).  The value of the penalty and whether it replaces or is
-                         added to the diagonal are NOT demanded (the statement does not),
+                         dense model can decide).  Whether the penalty replaces or is added to the diagonal
+                         is NOT demanded, nor its value when epsilon is left to the library; an EXPLICIT epsilon
+                         is the penalty parameter of the statement: the bound is then C/(1/epsilon) whatever is
+                         found on the diagonal, and a penalty weaker than 1/(2 epsilon) is a violation,
   mpc                    y[S] == T y[M] + g and the original rows U and M hold (unsymmetric elimination),
   every call             argument fingerprints unchanged (A, b only when overwrite was not requested);
                          a second pass with read-only buffers must give the same result.
@@ -66,19 +68,23 @@ RULE = ("random CSR systems n<=60 with dyadic entries (unsymmetric patterns, row
         "permuted, strided, read-only), DofsView (boundary, named, facets incl. interior, elements, keep/drop/skip) or "
         "dict of DofsView obtained from a real Basis; x None/zero/nonzero with garbage on the kept entries; b vector, "
         "None or sparse matrix; overwrite on/off; exhaustive ordered subsets x row-emptiness masks for n=4 (5 in "
-        "thorough).  distinct key = (operation, constrained row without stored entries, rhs kind, spelling, overwrite); "
+        "thorough); degenerate DOF collections (empty views, one-entry / empty-view dictionaries, FacetBasis views); "
+        "matrix right-hand sides in CSC/DIA/LIL/COO/BSR; float32/complex64 and integer systems; n~70000 tridiagonal "
+        "systems judged with sparse algebra; mpc corners (no constraint, masters only, complex g/T, dense T).  "
+        "distinct key = (operation, constrained row without stored entries, rhs kind, spelling, overwrite); "
         "non-trivial iff 0 < |D| < n and A[I][:, D] != 0")
 TRACK = ["skfem.utils:_init_bc", "skfem.utils:_flatten_dofs", "skfem.utils:enforce", "skfem.utils:penalize",
          "skfem.utils:condense", "skfem.utils:mpc", "skfem.utils:solve", "skfem.utils:solve_linear",
          "skfem.utils:solve_eigen"]
 REQUIRED_MONITORS = [
     "condense-index-set", "condense-matrix", "condense-rhs", "condense-matrix-rhs-reduced",
-    "expanded-equals-x-on-constrained", "expanded-satisfies-kept-equations",
+    "expanded-equals-x-on-constrained", "expanded-satisfies-kept-equations", "expansion-places-solution-at-returned-I",
     "eigen-expanded-equals-x-on-constrained", "eigen-expanded-satisfies-kept-equations",
     "enforce-constrained-rows-exact", "enforce-kept-rows-untouched", "enforce-rhs-exact",
     "enforce-same-solution", "enforce-same-solution-as-condense", "enforce-mass-rows",
     "enforce-pencil-eigenvalues",
     "penalize-only-constrained-entries-change", "penalize-agrees-up-to-epsilon", "penalize-pencil-eigenvalues",
+    "penalize-epsilon-honoured",
     "mpc-index-layout", "mpc-reduced-system", "mpc-constraint", "mpc-kept-equations",
     "spellings-agree", "view-spelling-equals-array-spelling",
     "no-argument-modified", "readonly-pass-agrees", "overwrite-result-correct",
@@ -97,6 +103,21 @@ REQUIRED_REACH = [
     "matrix:assembled-on-subdomain", "matrix:assembled-on-boundary",
     "overwrite:on", "overwrite:off", "readonly-pass", "unsymmetric-pencil",
     "solve:eigen-default-arpack", "solve:linear-default",
+    "penalize:explicit-epsilon-held-to-its-value",
+    "expansion:stub-solver:ill-conditioned-kept-block", "expansion:stub-solver:matrix-rhs",
+    "expansion:stub-solver:vector-rhs",
+    "matrix-rhs-format:A-csr/M-csc", "matrix-rhs-format:A-csr/M-dia", "matrix-rhs-format:A-csr/M-lil",
+    "matrix-rhs-format:A-csr/M-coo", "matrix-rhs-format:A-csc/M-csr",
+    "format-accepted:matrix-rhs:enforce", "format-accepted:matrix-rhs:enforce-overwrite",
+    "format-accepted:matrix-rhs:penalize", "format-accepted:matrix-rhs:condense",
+    "matrix-dtype:float32", "matrix-dtype:complex64", "matrix-dtype:int64", "matrix-dtype:int32",
+    "mpc:corner:no-constraint", "mpc:corner:S-empty-M-given", "mpc:corner:complex-g", "mpc:corner:complex-T",
+    "mpc:corner:dense-T",
+    "large-system:n>65535",
+    "collection:degenerate:empty-DofsView", "collection:degenerate:dict-with-empty-view",
+    "collection:degenerate:dict-one-entry", "collection:degenerate:view-restricted-to-nothing",
+    "collection:degenerate:FacetBasis.get_dofs",
+    "collection:degenerate:denotes-nothing:given-as-D", "collection:degenerate:denotes-nothing:given-as-I",
 ]
 ASSUMPTIONS = [
     "a DOF view denotes the index set view.flatten(); which DOFs a view selects is judged by C07, not here",
@@ -110,6 +131,11 @@ ASSUMPTIONS = [
     "eigenvalue clauses are evaluated for symmetric A and symmetric positive definite M only, and for the penalised "
     "pencil only when the penalty lies in the window the dense model can decide (otherwise dropped and counted)",
     "index arrays that list a constrained index more than once denote the same set (family repeated-index)",
+    "an explicit epsilon is the penalty parameter of the statement: the error bound is taken with 1/epsilon and a "
+    "penalty weaker than 1/(2 epsilon) on a constrained diagonal entry is a violation; a stronger one is not judged",
+    "single-precision data: solution clauses are judged with 1e-5 (x cond); integer matrices: structural clauses and "
+    "the expansion only (no solution clause, no penalize, integer diag)",
+    "the expansion performed by solve() is judged with a stub solver that returns a marker, also when A_II is singular",
 ]
 
 CONDMAX = 1e8
@@ -339,18 +365,26 @@ class Ref:
         n = A.shape[0]
         self.n = n
         self.sym = sym   # A symmetric and M symmetric positive definite (eigenvalue clauses are well posed)
-        self.Ad = np.asarray(A.toarray())
+        # single-precision / integer data: the model itself always works in binary64 (the conversion is exact),
+        # the library may work in the precision of its arguments: solution clauses are loosened to 1e-5 (times
+        # the condition number where the clause is an error and not a residual), structural clauses stay bitwise
+        dts = [np.dtype(o.dtype) for o in (A, b, x) if o is not None]
+        self.single = any((d.kind == "f" and d.itemsize < 8) or (d.kind == "c" and d.itemsize < 16) for d in dts)
+        self.integer = np.dtype(A.dtype).kind in "iub"
+        self.rt_sol, self.rt_res, self.rt_pen = (1e-5, 1e-5, 1e-5) if self.single else (1e-11, 1e-9, 1e-10)
+        up = (lambda a: a.astype(np.result_type(a.dtype, np.float64))) if (self.single or self.integer) else (lambda a: a)
+        self.Ad = up(np.asarray(A.toarray()))
         self.D = np.asarray(Dset, dtype=np.int64)
         self.I = np.setdiff1d(np.arange(n, dtype=np.int64), self.D)
-        self.xfull = np.zeros(n, dtype=A.dtype) if x is None else np.asarray(x)
+        self.xfull = up(np.zeros(n, dtype=A.dtype) if x is None else np.asarray(x))
         self.Md = None
         if b is None:
-            self.b = None if x is None else np.zeros_like(np.asarray(x))
+            self.b = None if x is None else up(np.zeros_like(np.asarray(x)))
         elif sp.issparse(b):
             self.b = None
-            self.Md = np.asarray(b.toarray())
+            self.Md = up(np.asarray(b.toarray()))
         else:
-            self.b = np.asarray(b)
+            self.b = up(np.asarray(b))
         I, D = self.I, self.D
         self.AII = self.Ad[np.ix_(I, I)]
         self.AID = self.Ad[np.ix_(I, D)]
@@ -364,6 +398,8 @@ class Ref:
                 self.cond = np.inf
             if not np.isfinite(self.cond):
                 self.cond = np.inf
+        if self.integer:
+            self.cond = np.inf      # integer matrices: no solution clause is judged (no integer solver kernels)
         self.y = None
         if self.b is not None and self.cond <= CONDMAX:
             rhs = self.b[I] - self.AID @ self.xfull[D]
@@ -416,7 +452,7 @@ class Ref:
         scale = float(scale.max()) if scale.size else 0.0
         scale += float(np.abs(b[rows]).max()) if rows.size else 0.0
         err = float(np.abs(r).max()) if r.size else 0.0
-        return (np.isfinite(err) and err <= 1e-9 * scale), err, scale
+        return (np.isfinite(err) and err <= self.rt_res * scale), err, scale
 
 
 def a2_manifests(M, Deff):
@@ -545,7 +581,9 @@ def check_condense(ctx, A, b, x, split, ref, tag, expand=True, solver=None, posi
         ctx.close("condense-rhs", bc, want, rtol=1e-13, scale=scale, mech=mk("rhs"), **tag)
     if not expand and has_b and ref.cond <= CONDMAX:
         # solve without expansion data: the caller scatters the result himself
-        if ref.Md is not None:
+        if ref.Md is not None and ref.single:
+            ctx.drop("eigen-residual-clause-skipped:single-precision-pencil")
+        elif ref.Md is not None:
             L, X = solve(Ac, bc, solver=dense_eig_solver)
             Y = np.zeros((ref.n, np.asarray(X).shape[1]), dtype=np.asarray(X).dtype)
             Y[Iord] = X
@@ -564,7 +602,13 @@ def check_condense(ctx, A, b, x, split, ref, tag, expand=True, solver=None, posi
             ctx.check("expanded-satisfies-kept-equations", ok, mech=mk("residual-unexpanded"), err=err, scale=scale, **tag)
     if not expand or not has_b:
         return None
-    if ref.cond > CONDMAX and ref.Md is None:
+    illcond = not (ref.cond <= CONDMAX)
+    if illcond or ref.Md is not None or (ctx.k or 0) % 4 == 0:
+        # the expansion itself (values on D, position of the solution entries, arguments untouched) does not
+        # depend on the conditioning of the kept block: judged with a solver that returns a marker
+        check_expansion_stub(ctx, Ac, bc, xr, Ir, x, split, ref, tag, mk,
+                             "ill-conditioned-kept-block" if illcond else "well-conditioned-kept-block")
+    if illcond and ref.Md is None:
         ctx.drop("solution-clause-skipped:cond(A_II)>1e8")
         return None
 
@@ -579,7 +623,9 @@ def check_condense(ctx, A, b, x, split, ref, tag, expand=True, solver=None, posi
         ctx.check("eigen-expanded-equals-x-on-constrained",
                   okshape and same(Y[D], np.tile(ref.xfull[D][:, None], (1, Y.shape[1]))),
                   mech=mk("eigen-expansion"), shape=Y.shape, **tag)
-        if okshape and not ref.xfull[D].any() and ref.cond <= CONDMAX and ref.I.size:
+        if okshape and not ref.xfull[D].any() and ref.cond <= CONDMAX and ref.I.size and ref.single:
+            ctx.drop("eigen-residual-clause-skipped:single-precision-pencil")
+        elif okshape and not ref.xfull[D].any() and ref.cond <= CONDMAX and ref.I.size:
             # kept equations of the pencil: (A Y - M Y diag(L))[I] = 0
             I = ref.I
             R = ref.Ad[I] @ Y - (ref.Md[I] @ Y) * np.asarray(L)[None, :]
@@ -618,6 +664,54 @@ def check_condense(ctx, A, b, x, split, ref, tag, expand=True, solver=None, posi
               cond_AII=ref.cond, ydtype=str(y.dtype), **tag)
     nt(ctx, "condense+solve", A, split, ref, "vector", False)
     return y
+
+
+def check_expansion_stub(ctx, Ac, bc, xr, Ir, x, split, ref, tag, mk, why):
+    """solve(A_c, b_c, x, I, solver=stub): the stub ignores the system and returns a marker (k/8, all entries
+    distinct and non-zero), so the expanded result is decided bit for bit whatever the conditioning of A_II:
+    equal to x on D, the j-th solution entry at index I[j] of the I that condense returned, nothing modified."""
+    from skfem.utils import solve
+    D, n = ref.D, ref.n
+    Iord = np.asarray(Ir, dtype=np.int64)
+    nI = int(Iord.size)
+    w = Watch(Ac=Ac, bc=bc, xr=xr, Ir=Ir, x=x, idx=split.obj)
+    seen = {}
+    if ref.Md is not None:
+        ncol = 2
+        LM = np.arange(1, ncol + 1) / 4
+        XM = (np.arange(1, nI * ncol + 1).reshape(nI, ncol)) / 8
+
+        def stub(K, M, **kw):
+            seen["shape"] = (K.shape, M.shape)
+            return LM.copy(), XM.copy()
+        L, Y = solve(Ac, bc, xr, Ir, solver=stub)
+        Y = np.asarray(Y)
+        ctx.reached("expansion:stub-solver:matrix-rhs")
+        ok = Y.shape == (n, ncol) and same(L, LM)
+        ctx.check("eigen-expanded-equals-x-on-constrained",
+                  ok and same(Y[D], np.tile(ref.xfull[D][:, None], (1, ncol))), mech=mk("eigen-expansion-stub"),
+                  shape=Y.shape, why=why, **tag)
+        ctx.check("expansion-places-solution-at-returned-I", ok and same(Y[Iord], XM),
+                  mech=mk("eigen-expansion-order-stub"), shape=Y.shape, I_returned=Iord[:40], why=why, **tag)
+    else:
+        marker = np.arange(1, nI + 1) / 8
+
+        def stub(K, r, **kw):
+            seen["shape"] = (K.shape, np.shape(r))
+            return marker.copy()
+        y = np.asarray(solve(Ac, bc, xr, Ir, solver=stub))
+        ctx.reached("expansion:stub-solver:vector-rhs")
+        ok = y.shape == (n,)
+        ctx.check("expanded-equals-x-on-constrained", ok and same(y[D], ref.xfull[D]), mech=mk("expansion-stub"),
+                  got=lambda: y[D][:12] if ok else y.shape, want=lambda: ref.xfull[D][:12], why=why, **tag)
+        ctx.check("expansion-places-solution-at-returned-I", ok and same(y[Iord], marker),
+                  mech=mk("expansion-order-stub"), I_returned=Iord[:40], why=why, **tag)
+    ctx.reached("expansion:stub-solver:" + why)
+    ctx.check("expansion-places-solution-at-returned-I", seen.get("shape") == ((nI, nI), (nI, nI) if ref.Md is not None
+                                                                                 else (nI,)),
+              mech=mk("solver-handed-another-system"), seen=seen.get("shape"), **tag)
+    ch = w.changed()
+    ctx.check("no-argument-modified", not ch, mech="argument-modified:solve(stub)", changed=ch, why=why, **tag)
 
 
 # ------------------------------------------------------------------- enforce
@@ -723,7 +817,7 @@ def check_enforce(ctx, A, b, x, split, ref, tag, diag=None, overwrite=False, y_c
             ye = np.asarray(solve(Ae, be, solver=dense_solver))
             scale = max(float(np.abs(ref.y).max()) if ref.y.size else 0.0,
                         float(np.abs(ref.b).max()) / ref.amax if ref.amax else 0.0, 1e-300)
-            rt = 1e-11 * max(1.0, ref.cond)
+            rt = ref.rt_sol * max(1.0, ref.cond)
             ctx.close("enforce-same-solution", ye, ref.y, rtol=rt, scale=scale, mech=mk("solution"), **tag)
             if y_condense is not None:
                 ctx.close("enforce-same-solution-as-condense", ye, y_condense, rtol=rt, scale=scale,
@@ -780,15 +874,22 @@ def check_penalize(ctx, A, b, x, split, ref, tag, epsilon=None, overwrite=False)
                  if epsilon is None else "penalize:penalty-parameter-degenerate(explicit epsilon)")
         ctx.reached("penalize:default-epsilon-degenerate")
         return out
+    P_nom = P
     if epsilon is not None:
         ctx.reached("note:penalty-equals-1/epsilon-exactly" if same(pen, np.full(D.size, 1.0 / epsilon))
                     else "note:penalty-differs-from-1/epsilon")
+        # An explicit epsilon IS the penalty parameter of the statement: every bound below is taken with the
+        # nominal penalty 1/epsilon, not with whatever is found on the returned diagonal.
+        P_nom = abs(1.0 / epsilon)
+        check_epsilon_held(ctx, ref, pen, bp, epsilon, overwrite, tag)
     rhs_kind = "none"
     if ref.Md is not None:
         rhs_kind = "matrix"
         Mpd = np.asarray(bp.toarray())
         pc = ref.pencil()
-        if pc is not None and pc["P_lo"] <= P <= pc["P_hi"] and float(np.abs(pen).max()) <= pc["P_hi"]:
+        if pc is not None and pc["P_lo"] <= P_nom <= pc["P_hi"] and float(np.abs(pen).max()) <= pc["P_hi"]:
+            # (P_nom == P unless an explicit epsilon was given: a nominal penalty inside the window is judged
+            # even when the penalty actually found is weaker)
             wc, sc = pc["wc"], pc["sc"]
             wp = finite_pencil_eigs(Apd, Mpd)
             # eigenvalues that stay bounded as P grows converge to the constrained ones at rate O(1/P)
@@ -820,12 +921,12 @@ def check_penalize(ctx, A, b, x, split, ref, tag, epsilon=None, overwrite=False)
                 return out
             rowsD = np.abs(ref.Ad[D]).sum(1)
             big = max(float(np.abs(yp).max()), float(np.abs(ref.xfull[D]).max()))
-            delta = float(rowsD.max()) * big / P
+            delta = float(rowsD.max()) * big / P_nom      # == P unless an explicit epsilon was given
             amp = 1.0
             if I.size:
                 amp = max(1.0, float(np.abs(np.linalg.solve(ref.AII, ref.AID)).sum(1).max()))
             ysc = max(float(np.abs(ref.y).max()), 1e-300)
-            tol = 2 * amp * delta + 1e-10 * max(1.0, ref.cond) * ysc
+            tol = 2 * amp * delta + ref.rt_pen * max(1.0, ref.cond) * ysc
             err = float(np.abs(yp - ref.y).max())
             ctx.check("overwrite-result-correct" if overwrite else "penalize-agrees-up-to-epsilon",
                       np.isfinite(err) and err <= tol, mech="penalize:solution", err=err, tol=tol, P=P,
@@ -835,6 +936,38 @@ def check_penalize(ctx, A, b, x, split, ref, tag, epsilon=None, overwrite=False)
             else:
                 ctx.reached("note:penalty-bound-not-sharp(C/P>1e-4|y|)")
     return out
+
+
+def check_epsilon_held(ctx, ref, pen, bp, epsilon, overwrite, tag):
+    """An explicit `epsilon` is held to its value (monitor penalize-epsilon-honoured).
+
+    What the statement ("agrees up to its penalty parameter") demands of the returned system when the caller
+    names the parameter: the penalty found on every constrained diagonal entry is not weaker than 1/epsilon
+    (slack factor 2, which also leaves the library free to *replace* the diagonal by 1/epsilon or to *add*
+    1/epsilon to it: |A_ii| << 1/epsilon in every workload), and the constrained right-hand side entries are the
+    prescribed values times that penalty (again free to replace b_i or to add to it, to use 1/epsilon or the
+    diagonal actually stored).  A penalty *stronger* than requested agrees even better and is not judged."""
+    P_nom = abs(1.0 / epsilon)
+    if not np.isfinite(P_nom) or P_nom == 0:
+        return
+    D = ref.D
+    ctx.reached("penalize:explicit-epsilon-held-to-its-value")
+    weak = np.abs(pen) < 0.5 * P_nom
+    ctx.check("penalize-epsilon-honoured", not weak.any(), mech="penalize:penalty-weaker-than-1/epsilon",
+              epsilon=epsilon, nominal=P_nom, found=lambda: [float(v) for v in np.abs(pen)[weak][:6]],
+              overwrite=overwrite, **tag)
+    if ref.Md is None and ref.b is not None and bp is not None:
+        bpD = np.asarray(bp)[D] if np.asarray(bp).shape == (ref.n,) else None
+        if bpD is None:
+            return
+        xD = ref.xfull[D]
+        u = float(np.finfo(np.result_type(bpD.dtype, np.float32)).eps)
+        # |bp_i - x_i/eps| <= |x_i||A_ii| (x_i*pen_i with the penalty added) + |b_i| (penalty added to the rhs) + ulps
+        slack = np.abs(xD) * np.abs(ref.Ad[D, D]) + np.abs(ref.b[D]) + 8 * u * np.abs(xD) * P_nom
+        bad = ~(np.abs(bpD - xD / epsilon) <= slack)
+        ctx.check("penalize-epsilon-honoured", not bad.any(), mech="penalize:rhs-not-x-times-1/epsilon",
+                  epsilon=epsilon, got=lambda: bpD[bad][:6], want=lambda: (xD / epsilon)[bad][:6],
+                  overwrite=overwrite, **tag)
 
 
 # ---------------------------------------------------------- read-only second pass
@@ -934,7 +1067,7 @@ def run_linear_ops(ctx, A, b, x, splits, tag, rot=0, sym=False):
         for (s1, r1, y1) in ys[1:]:
             if isinstance(y0, np.ndarray) and isinstance(y1, np.ndarray) and r0.y is not None:
                 sc = max(float(np.abs(r0.y).max()), 1e-300)
-                ctx.close("spellings-agree", y1, y0, rtol=1e-11 * max(1.0, r0.cond), scale=sc,
+                ctx.close("spellings-agree", y1, y0, rtol=r0.rt_sol * max(1.0, r0.cond), scale=sc,
                           mech="spelling:solution", spelling_a=s0.label, spelling_b=s1.label, **tag)
         d0, e0 = enf[0]
         for (d1, e1) in enf[1:]:
@@ -1142,6 +1275,9 @@ def fam_directed(ctx, k):
         return
 
 
+MPC_CORNERS = ["no-constraint", "S-empty-M-given", "complex-g", "complex-T", "dense-T", "S-empty-array-M-given"]
+
+
 @silenced
 def fam_mpc(ctx, k):
     from skfem.utils import mpc, solve
@@ -1150,9 +1286,18 @@ def fam_mpc(ctx, k):
     cplx = rng.random() < 0.2
     nS = int(rng.integers(1, max(2, n // 2)))
     nM = int(rng.integers(0, max(1, min(n - nS - 1, n // 2)) + 1)) if k % 5 else 0
+    # corners of the signature (every 7th case): no constraint at all, masters without slaves, complex constraint
+    # data on a real system, T handed over as a dense array
+    corner = MPC_CORNERS[(k // 7) % len(MPC_CORNERS)] if k % 7 == 6 else None
+    if corner in ("no-constraint", "S-empty-M-given", "S-empty-array-M-given"):
+        nS = 0
+        nM = 0 if corner == "no-constraint" else int(rng.integers(1, max(2, n // 2)))
+    elif corner:
+        cplx = False
+        nM = max(nM, 1)
     pm = rng.permutation(n)
     S, Mi = pm[:nS], pm[nS:nS + nM]
-    empty = [int(S[0])] if rng.random() < 0.3 else []   # rows S are dropped by the elimination anyway
+    empty = [int(S[0])] if (nS and rng.random() < 0.3) else []   # rows S are dropped by the elimination anyway
     A = gen_matrix(rng, n, cplx=cplx, empty=empty, layout=str(rng.choice(["canonical", "unsorted"])),
                    zeros_frac=float(rng.choice([0, 0.1])))
     dtype = np.complex128 if cplx else np.float64
@@ -1165,22 +1310,48 @@ def fam_mpc(ctx, k):
         S = np.asarray(S_arg, dtype=np.int64)
     Tkind = ["random-csr", "none", "random-csc", "random-coo"][k % 4] if nM else "none"
     T = None
+    if corner in ("complex-T", "dense-T"):
+        Tkind = "random-csr"
+    if nS == 0:
+        Tkind = "none"
     if Tkind != "none":
         Tm = np.where(rng.random((nS, nM)) < 0.5, dy(rng, (nS, nM), den=16, lim=8), 0.0)
+        if corner == "complex-T":
+            Tm = Tm + 1j * np.where(rng.random((nS, nM)) < 0.5, dy(rng, (nS, nM), den=16, lim=8), 0.0)
         T = sp.csr_matrix(Tm).asformat(Tkind.split("-")[1])
-    Td = (np.asarray(T.toarray()) if T is not None else np.eye(nS, nM))
+        if corner == "dense-T":
+            T, Tkind = Tm.copy(), "dense-ndarray"
+    Td = (np.asarray(T.toarray() if sp.issparse(T) else T) if T is not None else np.eye(nS, nM))
     g = dy(rng, nS).astype(dtype) if k % 2 == 0 else None
+    if corner == "complex-g":
+        g = dy(rng, nS) + 1j * dy(rng, nS)
+    if nS == 0:
+        g = None
     gd = g if g is not None else np.zeros(nS)
-    tag = dict(n=n, S=S, M=Mi, T=Tkind, g=g is not None, dtype=str(dtype.__name__))
+    tag = dict(n=n, S=S, M=Mi, T=Tkind, g=g is not None, dtype=str(dtype.__name__), corner=corner)
     w = Watch(A=A, b=b, S=S_arg, M=M_arg, T=T, g=g)
     kw = {}
+    if corner == "S-empty-array-M-given":
+        kw["S"] = np.zeros(0, dtype=Skind)
+    elif nS:
+        kw["S"] = S_arg
     if M_arg is not None:
         kw["M"] = M_arg
     if T is not None:
         kw["T"] = T
     if g is not None:
         kw["g"] = g
-    out = mpc(A, b, S=S_arg, **kw)
+    if corner:
+        ctx.reached("mpc:corner:" + corner)
+    try:
+        out = mpc(A, b, **kw)
+    except (TypeError, ValueError, AttributeError, NotImplementedError) as e:
+        if corner != "dense-T":
+            raise
+        # T is documented as a sparse matrix: refusing a dense array is allowed, a wrong answer is not
+        ctx.tolerated("format-rejected-with-exception")
+        ctx.reached("mpc:dense-T-rejected:" + type(e).__name__)
+        return
     ch = w.changed()
     ctx.check("no-argument-modified", not ch, mech="argument-modified:mpc", changed=ch, **tag)
     B, yr, x0, (perm, expand_fn) = out
@@ -1240,7 +1411,7 @@ def generic_mass(*args):
 FEM_KINDS = ["tri", "quad", "line", "tet", "tri", "hex", "quad", "tri", "wedge"]
 
 
-def fem_setup(ctx, rng, k):
+def fem_setup(ctx, rng, k, extra_names=None, nmax=None):
     import skfem
     kind = FEM_KINDS[k % len(FEM_KINDS)]
     for attempt in range(6):
@@ -1258,12 +1429,13 @@ def fem_setup(ctx, rng, k):
     # named boundaries (two overlapping halves of the boundary) and one subdomain
     mid = np.median(mesh.p, axis=1)
     names = {"lo": (lambda x, c=mid[0]: x[0] <= c), "hi": (lambda x, c=mid[-1]: x[-1] >= c)}
+    names.update(extra_names or {})
     try:
         mesh = mesh.with_boundaries(names)
     except Exception:
         raise Skip("no-named-boundary")
     basis = skfem.CellBasis(mesh, rec.make())
-    if basis.N > ctx.scale(260, 420) or basis.N < 4:
+    if basis.N > (nmax or ctx.scale(260, 420)) or basis.N < 4:
         raise Skip("basis-size")
     return kind, mc, rec, mesh, basis
 
@@ -1407,6 +1579,81 @@ def fam_fem_views(ctx, k):
             check_penalize(ctx, K, Mfull, None, sv, ref, tag, epsilon=pencil_epsilon(ref))
 
 
+# ------------------------------------------------ degenerate DOF collections
+@silenced
+def fam_degenerate(ctx, k):
+    """DOF collections at the edge of the type: a view that selects nothing (a tag without facets, keep/drop down
+    to nothing, an empty facet/element array), dictionaries with one entry / with an empty view among real ones /
+    with nothing but an empty view, and views obtained from a FacetBasis.  Each is handed over as D and as I; the
+    oracle is the dense model of the set the collection denotes (nothing / everything constrained included) and
+    the array spelling of the same set.  How such a view is *built* is not judged here (C07): a constructor that
+    refuses is counted and left out."""
+    import skfem
+    rng = ctx.rng()
+    kind, mc, rec, mesh, basis = fem_setup(ctx, rng, k, extra_names={"none": (lambda x: x[0] > 1e9)},
+                                           nmax=ctx.scale(110, 200))
+    if "none" not in mesh.boundaries or len(mesh.boundaries["none"]):
+        raise Skip("no-empty-tag")
+    N = int(basis.N)
+    real = basis.get_dofs("lo") if len(mesh.boundaries["lo"]) else basis.get_dofs()
+    if view_set(real).size == 0:
+        real = basis.get_dofs()
+    C = []
+
+    def offer(cls, lab, make):
+        try:
+            C.append((cls, lab, make()))
+        except Exception as e:
+            ctx.drop(f"degenerate-collection-not-constructible:{lab}:{type(e).__name__}")
+    empty = basis.get_dofs("none")
+    offer("empty-DofsView", "tag-without-facets", lambda: empty)
+    offer("dict-with-empty-view", "dict(empty,real)", lambda: {"a": empty, "b": real})
+    offer("dict-with-empty-view", "dict(real,empty)", lambda: {"b": real, "a": basis.get_dofs("none")})
+    offer("dict-one-entry", "dict(only=real)", lambda: {"only": real})
+    offer("dict-one-entry", "dict(only=empty)", lambda: {"only": empty})
+    dofnames = list(dict.fromkeys(basis.get_dofs().obj.element.dofnames)) if hasattr(empty, "obj") else []
+    offer("view-restricted-to-nothing", "keep([])", lambda: basis.get_dofs().keep([]))
+    if dofnames:
+        offer("view-restricted-to-nothing", "drop(all)", lambda: basis.get_dofs().drop(dofnames))
+        offer("view-restricted-to-nothing", "skip=all", lambda: basis.get_dofs("lo", skip=dofnames))
+    offer("empty-DofsView", "facets=[]", lambda: basis.get_dofs(facets=np.zeros(0, dtype=np.int32)))
+    offer("empty-DofsView", "elements=[]", lambda: basis.get_dofs(elements=np.zeros(0, dtype=np.int32)))
+    if rec.facet_basis:
+        offer("FacetBasis.get_dofs", "FacetBasis.get_dofs()", lambda: skfem.FacetBasis(mesh, rec.make()).get_dofs())
+        offer("FacetBasis.get_dofs", "FacetBasis.get_dofs(name)",
+              lambda: skfem.FacetBasis(mesh, rec.make()).get_dofs("hi" if len(mesh.boundaries["hi"]) else "lo"))
+        offer("FacetBasis.get_dofs", "FacetBasis.get_dofs(empty tag)",
+              lambda: skfem.FacetBasis(mesh, rec.make()).get_dofs("none"))
+    form = skfem.BilinearForm(generic_mass)
+    mkind = ["mass-full", "mass-boundary", "random"][k % 3]
+    if mkind == "mass-boundary" and not rec.facet_basis:
+        mkind = "mass-full"
+    if mkind == "mass-full":
+        A = form.assemble(basis)
+    elif mkind == "mass-boundary":
+        A = form.assemble(skfem.FacetBasis(mesh, rec.make()))
+    else:
+        A = gen_matrix(rng, N, density=3.0 / N, empty=[int(i) for i in rng.choice(N, size=2, replace=False)])
+    if not (sp.issparse(A) and A.format == "csr" and A.shape == (N, N)):
+        raise Skip("assembly-did-not-give-csr")
+    b = dy(rng, N)
+    x = dy(rng, N) if k % 4 else None
+    tag0 = dict(mesh=type(mesh).__name__, elem=rec.name, N=N, matrix=mkind)
+    for j in range(ctx.scale(3, 5)):
+        cls, lab, coll = C[(k + j * 3) % len(C)]
+        name = "DI"[(k + j) % 2]
+        given = view_set(coll)
+        Dset = given if name == "D" else np.setdiff1d(np.arange(N, dtype=np.int64), given)
+        sv = Split(name, coll, Dset, N, f"{name}:{lab}")
+        sa = Split(name, np.asarray(given, dtype=[np.int32, np.int64][(k + j) % 2]), Dset, N,
+                   f"{name}:array-of-same-set")
+        run_linear_ops(ctx, A, b, x, [sv, sa], dict(tag0, view=lab), rot=k + j)
+        ctx.reached("collection:degenerate:" + cls)
+        ctx.reached(f"collection:degenerate:denotes-{'nothing' if given.size == 0 else 'a-real-set'}:given-as-{name}")
+        ctx.nontrivial("degenerate-collection", cls, name)
+        ctx.sample(dict(tag0, collection=lab, given_as=name, denotes=int(given.size)), per_family=2)
+
+
 # ------------------------------------------------------- other sparse formats
 @silenced
 def fam_formats(ctx, k):
@@ -1446,6 +1693,56 @@ def fam_formats(ctx, k):
         except (AttributeError, TypeError, NotImplementedError, IndexError, ValueError) as e:
             ctx.tolerated("format-rejected-with-exception")
             ctx.reached(f"format-rejected:{fmt}:{op}:{type(e).__name__}")
+
+
+MRHS_COMBOS = [("csr", "csc"), ("csr", "dia"), ("csr", "lil"), ("csr", "coo"), ("csc", "csr"), ("csr", "dia-lumped"),
+               ("csc", "csc"), ("csr", "bsr")]
+
+
+@silenced
+def fam_formats_matrix_rhs(ctx, k):
+    """Matrix right-hand sides that are not CSR (a lumped mass matrix from scipy.sparse.diags is DIA, an imported
+    one CSC/COO, one built entry by entry LIL) next to a CSR stiffness matrix, and a CSC stiffness matrix next to a
+    CSR mass matrix; overwrite off and on (it cannot be honoured for a format that has to be converted: the result
+    must be right all the same).  Oracle: the dense model of the pencil and the fingerprint (format and values) of
+    the arguments when overwriting was not requested.  Rejection with an exception is tolerated (condense cannot
+    slice DIA/COO), a wrong answer is not."""
+    rng = ctx.rng()
+    fmtA, fmtM = MRHS_COMBOS[k % len(MRHS_COMBOS)]
+    n = int(rng.integers(5, ctx.scale(16, 30)))
+    Dset = np.sort(rng.choice(n, size=int(rng.integers(1, n - 2)), replace=False)).astype(np.int64)
+    emptyrows = [int(Dset[0])] if (k // len(MRHS_COMBOS)) % 2 else []
+    A0 = gen_matrix(rng, n, symmetric=True, positive=rng.random() < 0.5, density=0.4, empty=emptyrows)
+    if fmtM == "dia-lumped":
+        M = sp.diags(rng.integers(2, 17, size=n) / 8.0)       # what a lumped mass matrix usually is
+        M0 = sp.csr_matrix(M)
+    else:
+        M0 = gen_matrix(rng, n, symmetric=True, positive=True, density=0.4,
+                        empty=emptyrows if rng.random() < 0.5 else ())
+        M = M0.asformat(fmtM)
+    A = A0.asformat(fmtA)
+    if not (sp.issparse(M) and isinstance(M, sp.spmatrix) and isinstance(A, sp.spmatrix)):
+        raise Skip("scipy-did-not-give-an-spmatrix")
+    ctx.reached(f"matrix-rhs-format:A-{fmtA}/M-{M.format}")
+    x = make_x(rng, n, Dset, ["none", "zero-on-D", "values"][k % 3], np.float64)
+    split = array_split(rng, n, Dset, ["D", "I"][k % 2], ARRAY_STYLES[k % len(ARRAY_STYLES)])
+    ref = Ref(A0, M0, x, Dset, sym=True)
+    tag = dict(n=n, format_A=fmtA, format_M=M.format, D=Dset, rows_without_entries=emptyrows, rhs_kind="matrix")
+    eps = pencil_epsilon(ref)
+    ops = [("condense", lambda: check_condense(ctx, A, M, x, split, ref, tag)),
+           ("enforce", lambda: check_enforce(ctx, A, M, x, split, ref, tag, fmt=fmtA)),
+           ("enforce-overwrite", lambda: check_enforce(ctx, A, M, x, split, ref, tag, overwrite=True, fmt=fmtA)),
+           ("penalize", lambda: check_penalize(ctx, A, M, x, split, ref, tag, epsilon=eps)),
+           ("penalize-overwrite", lambda: check_penalize(ctx, A, M, x, split, ref, tag, epsilon=eps, overwrite=True))]
+    for op, run in ops:
+        try:
+            run()
+            ctx.reached(f"format-accepted:matrix-rhs:{op}")
+            ctx.reached(f"format-accepted:matrix-rhs:A-{fmtA}/M-{M.format}:{op}")
+            ctx.nontrivial("matrix-rhs-format", fmtA, M.format, op)
+        except (AttributeError, TypeError, NotImplementedError, IndexError, ValueError) as e:
+            ctx.tolerated("format-rejected-with-exception")
+            ctx.reached(f"format-rejected:matrix-rhs:A-{fmtA}/M-{M.format}:{op}:{type(e).__name__}")
 
 
 # ----------------------------------------------------------- dtype mixtures
@@ -1548,6 +1845,265 @@ def dtype_mix_eigen(ctx, rng, k):
     ctx.check("eigen-expanded-satisfies-kept-equations", np.isfinite(err) and err <= 1e-8 * scale, mech=m, err=err,
               scale=float(scale), Y_dtype=str(Y.dtype), **tag)
     ctx.nontrivial("dtype-mix", "eigen-unsymmetric")
+
+
+# ------------------------------------------- single precision and integer systems
+LOWPREC = [("float32", "float32", "float32"), ("float32", "float64", "float64"), ("float32", "float32", "none"),
+           ("complex64", "complex64", "complex64"), ("float64", "float32", "float32"), ("float32", "float64", "none"),
+           ("int64", "float64", "float64"), ("int32", "int64", "int64"), ("int64", "float64", "none"),
+           ("float32", "matrix", "none"), ("int64", "matrix", "none"), ("int32", "matrix", "float64")]
+
+
+@silenced
+def fam_lowprec(ctx, k):
+    """float32 / complex64 systems (all entries k/8 are exact in binary32, and so is every product and sum the
+    library has to form) and integer matrices (adjacency/incidence type, entries k).  Structural clauses stay
+    bitwise; solution clauses are judged with 1e-5 (x cond) when any argument is single precision and not at
+    all for integer matrices (enforce with an integer diag, no penalize: 1/epsilon and -2.5 do not fit the
+    dtype, which is the caller's choice and not the library's fault)."""
+    rng = ctx.rng()
+    ka, kb, kx = LOWPREC[k % len(LOWPREC)]
+    n = int(rng.integers(3, ctx.scale(22, 40) + 1))
+    Dset, empty, kept_empty = pick_split_and_rows(rng, n, k // len(LOWPREC))
+    integer = ka.startswith("int")
+    cplx = ka.startswith("complex")
+    layout = str(rng.choice(["canonical", "unsorted", "duplicates"]))
+    A64 = gen_matrix(rng, n, cplx=cplx, empty=empty, layout=layout, symmetric=(kb == "matrix"),
+                     zeros_frac=float(rng.choice([0, 0.1])))
+    if integer:
+        A = sp.csr_matrix(((A64.data * 8).astype(ka), A64.indices.copy(), A64.indptr.copy()), shape=A64.shape)
+        assert same(A.toarray(), A64.toarray() * 8)
+    else:
+        A = sp.csr_matrix((A64.data.astype(ka), A64.indices.copy(), A64.indptr.copy()), shape=A64.shape)
+        assert same(A.toarray(), A64.toarray())      # k/8 is exact in binary32
+    ctx.reached("matrix-dtype:" + ka)
+    if kb == "matrix":
+        M64 = gen_matrix(rng, n, symmetric=True, positive=True, empty=empty if rng.random() < 0.5 else ())
+        b = sp.csr_matrix(((M64.data * (8 if integer else 1)).astype(ka), M64.indices.copy(), M64.indptr.copy()),
+                          shape=M64.shape)
+    else:
+        bv = dy(rng, n, nonzero=False) * (8 if kb.startswith("int") else 1)
+        b = (bv + (1j * dy(rng, n) if kb.startswith("complex") else 0)).astype(kb)
+    if kx == "none":
+        x = None
+    else:
+        xv = dy(rng, n) * (8 if kx.startswith("int") else 1)
+        x = (xv + (1j * dy(rng, n) if kx.startswith("complex") else 0)).astype(kx)
+    sD = array_split(rng, n, Dset, "D", ARRAY_STYLES[k % len(ARRAY_STYLES)])
+    sI = array_split(rng, n, Dset, "I", ARRAY_STYLES[(k // 2 + 3) % len(ARRAY_STYLES)])
+    tag = dict(n=n, A=ka, b=kb, x=kx, layout=layout, rows_without_entries=empty)
+    if not integer and kb != "matrix":
+        run_linear_ops(ctx, A, b, x, [sD, sI], tag, rot=k)
+        ctx.nontrivial("low-precision", ka, kb, kx)
+        return
+    # integer matrices and single-precision pencils: structural clauses, expansion through the stub solver,
+    # arguments untouched, read-only pass; integer diag
+    outs = []
+    for si, split in enumerate([sD, sI]):
+        ref = Ref(A, b, x, split.Dset)
+        t = dict(tag, spelling=split.label, D=split.Dset[:40], nD=int(split.Dset.size))
+        check_condense(ctx, A, b, x, split, ref, t, expand=True, solver=dense_solver, positional=bool(si))
+        check_condense(ctx, A, b, x, split, ref, t, expand=False)
+        diag = [None, 2, None, -3][(k // len(LOWPREC) + si) % 4]
+        e1 = check_enforce(ctx, A, b, x, split, ref, t, diag=diag)
+        readonly_pass(ctx, "enforce", A, b, x, split, t, e1, **({"diag": diag} if diag is not None else {}))
+        check_enforce(ctx, A, b, x, split, ref, t, diag=[None, 4][si], overwrite=True)
+        if not integer:
+            check_penalize(ctx, A, b, x, split, ref, t, epsilon=2.0 ** -30)
+        from skfem.utils import condense
+        readonly_pass(ctx, "condense", A, b, x, split, t, condense(A, b, x=x, **split.kw))
+        outs.append((diag, e1))
+    ctx.nontrivial("low-precision", ka, kb, kx)
+    ctx.sample(dict(tag, D=Dset), per_family=2)
+
+
+# ------------------------------------------------------------- large systems
+def big_fp(o):
+    """Byte-level fingerprint that never densifies (large systems)."""
+    if o is None:
+        return None
+    if sp.issparse(o):
+        return (o.format, o.shape, str(o.dtype), crc_bytes(o.data), crc_bytes(o.indices), crc_bytes(o.indptr))
+    o = np.asarray(o)
+    return (o.shape, str(o.dtype), crc_bytes(o))
+
+
+def crc_bytes(a):
+    import zlib
+    return zlib.crc32(np.ascontiguousarray(a).tobytes())
+
+
+def sp_same(X, Y):
+    """Value identity of two sparse matrices through sparse algebra only."""
+    if not (sp.issparse(X) and sp.issparse(Y)) or X.shape != Y.shape:
+        return False
+    d = (sp.csr_matrix(X) - sp.csr_matrix(Y)).tocoo()
+    return not bool(np.any(d.data != 0))
+
+
+def own_block(A, posr, nr, posc, nc):
+    """Sub-matrix of A from its COO triplets: entry (i, j) goes to (posr[i], posc[j]) when both are >= 0 (no fancy
+    indexing of sparse matrices, which is what the library uses)."""
+    c = A.tocoo()
+    sel = (posr[c.row] >= 0) & (posc[c.col] >= 0)
+    return sp.csr_matrix((c.data[sel], (posr[c.row[sel]], posc[c.col[sel]])), shape=(nr, nc))
+
+
+@silenced
+def fam_large(ctx, k):
+    """n ~ 70000 (beyond int16/uint16 index range; tridiagonal, strictly diagonally dominant, dyadic entries, random
+    rows without stored entries): the index arithmetic of enforce/condense on long arrays.  The oracle uses sparse
+    algebra only and builds every reference block from the COO triplets of the input."""
+    from skfem.utils import condense, enforce, penalize, solve
+    rng = ctx.rng()
+    n = int(rng.integers(66000, 75000))
+    lo, upv = dy(rng, n - 1, lim=16), dy(rng, n - 1, lim=16)
+    d = (np.abs(np.r_[0, lo]) + np.abs(np.r_[upv, 0]) + rng.integers(4, 25, size=n) / 8) * rng.choice([1.0, -1.0], size=n)
+    rows = np.r_[np.arange(n), np.arange(1, n), np.arange(n - 1)]
+    cols = np.r_[np.arange(n), np.arange(n - 1), np.arange(1, n)]
+    vals = np.r_[d, lo, upv]
+    emptyrows = np.unique(np.r_[rng.choice(n, size=int(rng.integers(1, 40)), replace=False),
+                                [[0], [n - 1], [0, n - 1], []][k % 4]]).astype(np.int64)
+    keep = ~np.isin(rows, emptyrows)
+    idt = [np.int32, np.int64][k % 2]
+    A = sp.csr_matrix((vals[keep], (rows[keep], cols[keep])), shape=(n, n))
+    A = sp.csr_matrix((A.data, A.indices.astype(idt), A.indptr.astype(idt)), shape=(n, n))
+    nD = [int(rng.integers(1, 60)), n // 3, n - int(rng.integers(1, 60)), n // 2][(k // 2) % 4]
+    Dset = np.sort(rng.choice(n, size=nD, replace=False)).astype(np.int64)
+    kept_empty = (k % 4 == 3)
+    if kept_empty:
+        Dset = np.setdiff1d(Dset, emptyrows[:1])        # one row without entries stays a kept one: A_II singular
+    else:
+        Dset = np.union1d(Dset, emptyrows)
+    Iset = np.setdiff1d(np.arange(n, dtype=np.int64), Dset)
+    nD, nI = int(Dset.size), int(Iset.size)
+    isD = np.zeros(n, dtype=bool)
+    isD[Dset] = True
+    split = array_split(rng, n, Dset, ["D", "I", "D", "I", "D"][k % 5],
+                        ARRAY_STYLES[[1, 0, 4, 2, 7, 5][k % 6]])
+    b = dy(rng, n, nonzero=False)
+    x = dy(rng, n) if k % 3 else None
+    xf = np.zeros(n) if x is None else x
+    tag = dict(n=n, nD=nD, index_dtype=str(A.indices.dtype), spelling=split.label,
+               rows_without_entries=int(emptyrows.size), kept_row_without_entries=kept_empty)
+    ctx.reached("large-system:n>65535")
+    reach_empty_rows(ctx, A, split)
+    note_collection(ctx, split)
+    fps = lambda: (big_fp(A), big_fp(b), big_fp(x), big_fp(split.obj))
+    f0 = fps()
+
+    # ---- condense
+    Ac, bc, xr, Ir = condense(A, b, x=x, **split.kw)
+    ctx.check("no-argument-modified", fps() == f0, mech="argument-modified:condense", **tag)
+    Iord = np.asarray(Ir, dtype=np.int64)
+    okI = Iord.ndim == 1 and same(np.sort(Iord), Iset)
+    ctx.check("condense-index-set", okI, mech="condense:index-set", **tag)
+    y = None
+    if okI:
+        pos = np.full(n, -1, dtype=np.int64)
+        pos[Iord] = np.arange(nI)
+        posD = np.full(n, -1, dtype=np.int64)
+        posD[Dset] = np.arange(nD)
+        ctx.check("condense-matrix", sp_same(Ac, own_block(A, pos, nI, pos, nI)), mech="condense:matrix", **tag)
+        AID = own_block(A, pos, nI, posD, nD)
+        want = b[Iord] - AID @ xf[Dset]
+        ctx.close("condense-rhs", bc, want, rtol=1e-13, scale=float(np.abs(b).max() + (abs(AID) @ np.abs(xf[Dset])).max())
+                  if nI else 1.0, mech="condense:rhs", **tag)
+        ctx.check("expanded-equals-x-on-constrained", same(np.asarray(xr), xf), mech="condense:returned-x", **tag)
+        # expansion through the stub solver (always), through the default solver when A_II is nonsingular
+        marker = np.arange(1, nI + 1) / 8
+        Ac0, bc0 = Ac.copy(), bc.copy()
+        ys = np.asarray(solve(Ac, bc, xr, Ir, solver=lambda K, r, **kw: marker.copy()))
+        ctx.reached("expansion:stub-solver:vector-rhs")
+        ctx.check("expanded-equals-x-on-constrained", ys.shape == (n,) and same(ys[Dset], xf[Dset]),
+                  mech="condense:expansion-stub", **tag)
+        ctx.check("expansion-places-solution-at-returned-I", ys.shape == (n,) and same(ys[Iord], marker),
+                  mech="condense:expansion-order-stub", **tag)
+        if not kept_empty:
+            y = np.asarray(solve(Ac, bc, xr, Ir))
+            ctx.reached("solve:linear-default")
+            ctx.check("expanded-equals-x-on-constrained", y.shape == (n,) and same(y[Dset], xf[Dset]),
+                      mech="condense:expansion", **tag)
+            if y.shape == (n,):
+                r = (A @ y - b)[Iset]
+                sc = float((abs(A) @ np.abs(y) + np.abs(b))[Iset].max()) if nI else 0.0
+                err = float(np.abs(r).max()) if nI else 0.0
+                ctx.check("expanded-satisfies-kept-equations", np.isfinite(err) and err <= 1e-9 * sc,
+                          mech="condense:residual", err=err, scale=sc, **tag)
+            else:
+                y = None
+        ctx.check("no-argument-modified", fps() == f0 and sp_same(Ac, Ac0) and same(bc, bc0) and same(xr, xf)
+                  and same(np.asarray(Ir, dtype=np.int64), Iord), mech="argument-modified:solve", **tag)
+        # matrix right-hand side (lumped mass matrix): reduced consistently
+        M = sp.diags(rng.integers(1, 17, size=n) / 8.0).tocsr()
+        fM = big_fp(M)
+        out = condense(A, M, **split.kw)
+        Iord2 = np.asarray(out[3], dtype=np.int64)
+        if ctx.check("condense-index-set", same(np.sort(Iord2), Iset), mech="condense:index-set", rhs_kind="matrix", **tag):
+            pos2 = np.full(n, -1, dtype=np.int64)
+            pos2[Iord2] = np.arange(nI)
+            ctx.check("condense-matrix", sp_same(out[0], own_block(A, pos2, nI, pos2, nI)), mech="condense:matrix",
+                      rhs_kind="matrix", **tag)
+            ctx.check("condense-matrix-rhs-reduced", sp_same(out[1], own_block(M, pos2, nI, pos2, nI)),
+                      mech="condense:matrix-rhs", **tag)
+        Ae, Me = enforce(A, M, **split.kw)
+        ctx.reached("enforce:mass-matrix-recursion")
+        Mwant = sp.diags(np.where(isD, 0.0, M.diagonal())).tocsr()
+        ctx.check("enforce-mass-rows", sp_same(Me, Mwant), mech="enforce:mass-rows", **tag)
+        ctx.check("no-argument-modified", fps() == f0 and big_fp(M) == fM, mech="argument-modified:matrix-rhs", **tag)
+
+    # ---- enforce (overwrite off, then on a copy with overwrite on)
+    for overwrite in (False, True):
+        diag = [1.0, -2.5, 0.5][(k + overwrite) % 3]
+        A_in, b_in = (A.copy(), b.copy()) if overwrite else (A, b)
+        ctx.reached("overwrite:on" if overwrite else "overwrite:off")
+        Ae, be = enforce(A_in, b_in, x=x, diag=diag, overwrite=overwrite, **split.kw)
+        if not overwrite:
+            ctx.check("no-argument-modified", fps() == f0, mech="argument-modified:enforce", **tag)
+        dd = (sp.csr_matrix(Ae) - A).tocoo()
+        touched = np.unique(dd.row[dd.data != 0])
+        nm_k = "overwrite-result-correct" if overwrite else "enforce-kept-rows-untouched"
+        nm_r = "overwrite-result-correct" if overwrite else "enforce-constrained-rows-exact"
+        ctx.check(nm_k, not isD[touched].size or bool(isD[touched].all()), mech="enforce:kept-rows",
+                  rows_changed=lambda: touched[~isD[touched]][:10], **tag)
+        want_rows = sp.csr_matrix((np.full(nD, diag), (Dset, Dset)), shape=(n, n))
+        rowsel = sp.diags(isD.astype(float)).tocsr()
+        ctx.check(nm_r, sp_same(rowsel @ sp.csr_matrix(Ae), want_rows), mech="enforce:constrained-rows", **tag)
+        be = np.asarray(be)
+        ctx.check("overwrite-result-correct" if overwrite else "enforce-rhs-exact",
+                  be.shape == (n,) and same(be[Dset], xf[Dset]) and same(be[Iset], b[Iset]), mech="enforce:rhs", **tag)
+    # ---- penalize
+    eps = 2.0 ** -34
+    Ap, bp = penalize(A, b, x=x, epsilon=eps, **split.kw)
+    ctx.check("no-argument-modified", fps() == f0, mech="argument-modified:penalize", **tag)
+    dd = (sp.csr_matrix(Ap) - A).tocoo()
+    nz = dd.data != 0
+    ctx.check("penalize-only-constrained-entries-change",
+              bool(np.all(dd.row[nz] == dd.col[nz]) and np.all(isD[dd.row[nz]])) and same(np.asarray(bp)[Iset], b[Iset]),
+              mech="penalize:touches-other-entries", **tag)
+    pen = np.asarray(Ap.diagonal())[Dset]
+    ctx.reached("penalize:explicit-epsilon-held-to-its-value")
+    ctx.check("penalize-epsilon-honoured", bool(np.all(np.abs(pen) >= 0.5 / eps)),
+              mech="penalize:penalty-weaker-than-1/epsilon", **tag)
+    Adiag = np.asarray(A.diagonal())
+    slack = np.abs(xf[Dset]) * np.abs(Adiag[Dset]) + np.abs(b[Dset]) + 8 * np.finfo(float).eps * np.abs(xf[Dset]) / eps
+    ctx.check("penalize-epsilon-honoured", bool(np.all(np.abs(np.asarray(bp)[Dset] - xf[Dset] / eps) <= slack)),
+              mech="penalize:rhs-not-x-times-1/epsilon", **tag)
+    if y is not None and not kept_empty:
+        import scipy.sparse.linalg as spl
+        # each constrained row rescaled by its own penalty (the simple SuperLU driver does not equilibrate: on the
+        # unscaled system its own rounding, about 1e-7, would be mistaken for penalty error)
+        rs = np.ones(n)
+        rs[Dset] = 1.0 / pen
+        yp = spl.spsolve(sp.csc_matrix(sp.diags(rs) @ Ap), rs * np.asarray(bp))
+        # strictly diagonally dominant rows (margin >= 1/2): |A_II^-1| <= 2, |A_ID| <= 4, rows of A on D <= 12
+        big = max(float(np.abs(yp).max()), float(np.abs(xf[Dset]).max()))
+        tol = 2 * (2 * 4) * 12 * big * eps + 1e-9 * max(float(np.abs(y).max()), 1e-300)
+        err = float(np.abs(yp - y).max())
+        ctx.check("penalize-agrees-up-to-epsilon", np.isfinite(err) and err <= tol, mech="penalize:solution", err=err,
+                  tol=tol, **tag)
+    ctx.nontrivial("large", split.spelling_class, str(A.indices.dtype), bool(kept_empty))
+    ctx.sample(tag, per_family=1)
 
 
 # ---------------------------------------------------- repeated constrained index
@@ -1669,7 +2225,11 @@ FAMILIES = [
     Family("random-eigen", fam_random_eigen, quick=550, thorough=16000, budget={"quick": 30, "thorough": 480}),
     Family("mpc", fam_mpc, quick=700, thorough=20000, budget={"quick": 20, "thorough": 300}),
     Family("fem-views", fam_fem_views, quick=240, thorough=6400, budget={"quick": 60, "thorough": 600}),
+    Family("degenerate-collections", fam_degenerate, quick=36, thorough=900, budget={"quick": 20, "thorough": 300}),
     Family("formats", fam_formats, quick=24, thorough=480),
+    Family("formats-matrix-rhs", fam_formats_matrix_rhs, quick=64, thorough=1600),
     Family("dtype-mix", fam_dtype_mix, quick=40, thorough=1200),
+    Family("low-precision", fam_lowprec, quick=120, thorough=3600, budget={"quick": 20, "thorough": 300}),
     Family("repeated-index", fam_repeated, quick=30, thorough=900),
+    Family("large", fam_large, quick=4, thorough=64, budget={"quick": 25, "thorough": 300}),
 ]
